@@ -5,6 +5,7 @@ go 1.20
 require (
 	github.com/anishathalye/porcupine v1.3.0
 	github.com/elastos/Elastos.ELA v0.0.0
+	golang.org/x/crypto v0.17.0
 )
 
 require (
@@ -37,7 +38,6 @@ require (
 	github.com/tidwall/gjson v1.9.3 // indirect
 	github.com/tidwall/match v1.1.1 // indirect
 	github.com/tidwall/pretty v1.2.0 // indirect
-	golang.org/x/crypto v0.17.0 // indirect
 	golang.org/x/sys v0.15.0 // indirect
 	golang.org/x/term v0.15.0 // indirect
 	golang.org/x/text v0.14.0 // indirect
